@@ -139,6 +139,22 @@ class System:
                       'orbital_frequency': 'orbital_frequencies', 'orbital_period': 'orbital_periods'}
             kw = {plural[k]: [self.value(v, n) for v in vals] for k, vals in op['lists'].items()}
             o.set_states(sigs, **kw)
+        elif kind == 'stellar':
+            if self.host is self.star and (tgt == 'host' or op['how'] in ('o.set_state', 'o.setter')):
+                return 'skipped'                 # (only a shrunk plan can ask for this) the star has no stellar orbit
+            v, sig = a['value'], self._signature(w, op.get('sig'))
+            if op['how'] == 'w.prop':
+                setattr(w, 'stellar_' + op['field'], v)
+            elif op['how'] == 'o.method':
+                getattr(o, 'set_stellar_' + op['field'])(sig, v)
+            elif getattr(getattr(o, 'host_tide_raiser', None), 'semi_major_axis', None) is None:
+                # the general setters with set_stellar_orbit=True report "an orbital change" to the host's tide raiser
+                # (needlessly - observed, not claimed); that is only a legal call once the raiser has an orbit
+                return 'skipped'
+            elif op['how'] == 'o.set_state':
+                o.set_state(sig, set_stellar_orbit=True, **{op['field']: v})
+            else:
+                getattr(o, 'set_' + op['field'])(sig, v, set_stellar_orbit=True)
         elif kind == 'w.set_state':
             w.set_state(**a)
         elif kind == 'o.set_state':
